@@ -24,7 +24,6 @@ pub mod seqlem {
     {
     }
 }
-broadcast use seqlem::lemma_subrange_subrange;
 pub open spec fn enc16(x: u16) -> Seq<u8> { seq![(x / 256) as u8, (x % 256) as u8] }
 pub open spec fn enc32(x: u32) -> Seq<u8> {
     seq![(x / 16777216) as u8, ((x / 65536) % 256) as u8, ((x / 256) % 256) as u8, (x % 256) as u8]
